@@ -316,6 +316,27 @@ func c01Dir(ctx *core.Ctx, dotu bool, nrand int) core.Result {
 			}
 			rest = rest[reclen:]
 		}
+		// each record on its own, in a buffer that ends with it
+		for i := range recs {
+			exact := wire.EncodeStat(&recs[i], dotu)
+			var d *go9p.Dir
+			var b []byte
+			var amt int
+			var err error
+			if !safely(&res, "unpackdir;exact;"+dl, det, func() { d, b, amt, err = go9p.UnpackDir(exact, dotu) }) {
+				return
+			}
+			res.Count("stat_records_decoded", 1)
+			switch {
+			case err != nil:
+				res.Violate("dir-unpack-error;exact;"+dl, fmt.Sprintf("UnpackDir rejects a well-formed %d-byte record that fills its buffer: %v", len(exact), err), det)
+				return
+			case amt != len(exact) || len(b) != 0:
+				res.Violate("dir-amt;exact;"+dl, fmt.Sprintf("UnpackDir reports %d bytes, leaves %d, for a %d-byte record that fills its buffer", amt, len(b), len(exact)), det)
+			case fromDir(d, dotu) != recs[i]:
+				res.Violate("dir-fields;exact;"+dl, "UnpackDir fields differ from the encoded record", det)
+			}
+		}
 	}
 	for k := 0; k < 45; k++ {
 		one(&chooser{r: r, focus: -1, all: k, big: true}, 1)
